@@ -133,7 +133,10 @@ def _methods():
         'signrawtransactionwithwallet': (lambda p: p.signrawtransactionwithwallet(txobj()), q({'hex': TXHEX, 'complete': True})),
         'fundrawtransaction': (lambda p: p.fundrawtransaction(txobj()), '{"hex": "%s", "fee": 0.0001, "changepos": 1}' % TXHEX),
         'submitblock': (lambda p: p.submitblock(blkobj()), 'null'),
-        'generatetoaddress': (lambda p: list(p.generatetoaddress(1, addr())), q([core_hex(H0)])),
+        # the two block-generating calls return an iterable: it is handed back unconsumed, the history check looks at the
+        # requests issued by the call itself before consuming it
+        'generatetoaddress': (lambda p: p.generatetoaddress(1, addr()), q([core_hex(H0)])),
+        'generate': (lambda p: p.generate(2), q([core_hex(H0), core_hex(H0)])),
         'validateaddress': (lambda p: p.validateaddress(addr()), q({'isvalid': True, 'address': ADDR})),
         'importaddress': (lambda p: p.importaddress(addr()), 'null'),
         'dumpprivkey': (lambda p: p.dumpprivkey(addr()), q(B58.check_encode(128, bytes(range(1, 33)) + b'\x01'))),
@@ -145,7 +148,7 @@ def _methods():
 METHODS = ['call', 'getblockcount', 'getbalance', 'getbestblockhash', 'getblockhash', 'getblock', 'getblockheader', 'getblockheader_verbose', 'getrawtransaction',
            'getrawtransaction_verbose', 'gettransaction', 'gettxout', 'getreceivedbyaddress', 'getnewaddress', 'getrawchangeaddress', 'getaccountaddress',
            'getrawmempool', 'getinfo', 'getmininginfo', 'listunspent', 'lockunspent', 'sendrawtransaction', 'sendtoaddress', 'sendmany', 'signrawtransaction',
-           'signrawtransactionwithwallet', 'fundrawtransaction', 'submitblock', 'generatetoaddress', 'validateaddress', 'importaddress', 'dumpprivkey', 'unlockwallet', 'addnode']
+           'signrawtransactionwithwallet', 'fundrawtransaction', 'submitblock', 'generatetoaddress', 'generate', 'validateaddress', 'importaddress', 'dumpprivkey', 'unlockwallet', 'addnode']
 INDEXERROR_CONVERSIONS = {('getblock', -5), ('getblockheader', -5), ('getblockheader_verbose', -5), ('getrawtransaction', -5), ('getrawtransaction_verbose', -5),
                           ('gettransaction', -5), ('getblockhash', -8)}
 REPLY_KINDS = (['result'] + ['err%d' % c for c in REGISTERED + UNREGISTERED] + ['err_nocode', 'err_string', 'err_number', 'err_with_result', 'missing_result', 'nonjson', 'empty', 'nohttp', 'html500',
@@ -260,7 +263,13 @@ class Histories(BFSFamily):
             want = expected_error_class(method, kind)
             try:
                 r = fn(p)
+                if len(c.requests) != nreq + 1:
+                    raise Viol('%s issued %d requests by the time the call returned' % (method, len(c.requests) - nreq), 1, len(c.requests) - nreq)
+                if method in ('generate', 'generatetoaddress'):
+                    r = list(r)
                 got = ('result',)
+            except Viol:
+                raise
             except JSONRPCError as e:
                 got = ('rpcerror', type(e).__name__)
             except IndexError as e:
